@@ -566,6 +566,48 @@ def stream_end_rule(res, fx, rule='STREAM-END'):
         raise AnalysisBroken('%s: no inflate() call inside a loop found under zlib/' % rule)
 
 
+def c_init_rule(res, fx, rule='C-INIT'):
+    """malloc() hands out uninitialised memory: a C object that the parsers link into lists must not carry a field nobody wrote"""
+    res.rule(rule, 'in the C codecs a function that allocates a struct with MMalloc/malloc(sizeof(T) …) and hands it out assigns every (non-array) field of T on every path on which the allocation '
+                   'succeeded (or clears/copies the whole object): clean-up loops follow link fields such as `scratch`, `nextField` of objects that were only allocated', floor=3)
+    n = 0
+    for f in sorted((f for f in fx.funcs.values() if f.full and f.file.startswith('lang/c/')), key=lambda f: (f.file, f.line)):
+        for v in f.walk():
+            if v['k'] != 'VarDecl' or not v['ch'] or not v.type().rstrip().endswith('*'):
+                continue
+            calls = [c for c in v['ch'][0].walk() if c.is_call() and (c.get('q') or '').split('::')[-1] in ('MMalloc', 'malloc', 'UMalloc')]
+            if not calls:
+                continue
+            tname = v.type().replace('struct ', '').replace('const ', '').rstrip('* ').strip()
+            rec = (fx.recs_q.get(tname) or fx.recs_q.get('_' + tname) or [None])[0]
+            if rec is None or not any('sizeof' in x.text(40) or x['k'] == 'UnaryExprOrTypeTraitExpr' for x in calls[0].walk()):
+                continue
+            types = rec.get('_types') or []
+            fields = [fl['n'] for fl in rec.get('fields', []) if not re.search(r'\[\d*\]$', types[fl['t']] if isinstance(fl.get('t'), int) and fl['t'] < len(types) else '')]
+            # a trailing (unsigned) char member is the first byte of the variable-length data area that follows the header, not a field of it
+            lastf = rec.get('fields', [])[-1] if rec.get('fields') else None
+            if lastf is not None and lastf['n'] in fields and isinstance(lastf.get('t'), int) and lastf['t'] < len(types) and re.match(r'^(unsigned |signed )?char$', types[lastf['t']]):
+                fields.remove(lastf['n'])
+            if not fields:
+                continue
+            n += 1
+            whole = [c for c in f.walk() if c.is_call() and (c.get('q') or '').split('::')[-1] in ('memset', 'memcpy') and c.args() and A.strip_casts(c.args()[0]).get('d') == v['d']]
+            esc = P.escape_edges(f, status=False, null=True)
+            missing = []
+            for fl in fields:
+                asg = [a for a in f.walk() if a['k'] == 'BinaryOperator' and a.get('op') == '=' and A.strip_casts(a['ch'][0])['k'] == 'MemberExpr' and A.strip_casts(a['ch'][0]).get('n') == fl
+                       and A.strip_casts(A.strip_casts(a['ch'][0])['ch'][0]).get('d') == v['d']]
+                if not ((asg or whole) and P.must_follow(f, v, asg + whole, escapes=esc)[0]):
+                    missing.append(fl)
+            res.ob(rule, f.where(v), '%s: every field of the freshly allocated %s is written before it is handed out' % (f.q, tname), not missing, function=f.q, key='%s|%s|%s' % (rule, f.q, tname),
+                   how='%d field(s)' % len(fields),
+                   message='%s hands out a %s fresh from %s() without writing its field(s) %s: the memory is whatever the heap last held there — when a parse fails, the clean-up of the Message-field '
+                           'parser follows `scratch` of the last sub-Message it allocated (it only ever writes the previous node\'s link) and frees a wild pointer instead of returning an error'
+                           % (f.q, tname, (calls[0].get('q') or '').split('::')[-1], missing))
+    if n < 3:
+        raise AnalysisBroken('%s: only %d struct allocations found in the C codecs' % (rule, n))
+
+
 def run(res, tier):
     fx = common.load_all(res, tier, with_c=True)
     cg = CallGraph(fx)
@@ -581,6 +623,7 @@ def run(res, tier):
     from .C03 import count_consulted_rule
     count_consulted_rule(res, fx)
     stream_end_rule(res, fx)
+    c_init_rule(res, fx)
     entries = []
     missing = []
     for q in PARSE_ENTRIES:
